@@ -586,7 +586,18 @@ pub fn c08(ctx: &mut Ctx) {
     crate::scen_core::c08(ctx);
     let scenario = "c08.protocol";
     let n_toy = if ctx.is_quick() { 10 } else { 100 };
-    let bases = scen_proof::collect_bases(ctx, scenario, n_toy, 0);
+    let mut bases = scen_proof::collect_bases(ctx, scenario, n_toy, 0);
+    // always one base whose commitments are entirely masked (no verifier-friendly layer): the only
+    // configuration in which a commitment root is itself a shortened digest
+    {
+        let mut rng = Rng::derive(ctx.seed, "c08.protocol.masked-base", 0);
+        let mut params = crate::toyprover::ToyParams::draw(&mut rng, true);
+        params.n_friendly = 0;
+        match crate::toyprover::honest_base(&params) {
+            Ok(b) => bases.push(b),
+            Err(e) => ctx.harness_error(&format!("toy prover self-check failed: {e} params={params:?}")),
+        }
+    }
     let loaded = load_all(ctx);
     let base_unit0 = 1_000_000u64;
     for (bi, base) in bases.iter().enumerate() {
@@ -678,9 +689,16 @@ pub fn c08(ctx: &mut Ctx) {
                 4 + n_inner
             }
         };
-        for (kind, path) in msgs {
+        // every message once changed in its lowest bit and once only far above the digest width of
+        // the masked hashes (bit 200 / bit 249): a channel that absorbs a shortened form of a
+        // commitment must not go unnoticed
+        let msgs: Vec<(String, String, Felt)> = msgs
+            .into_iter()
+            .flat_map(|(k, p)| [(k.clone(), p.clone(), Felt::ONE), (format!("{k}-high"), p.clone(), models::pow2(200)), (format!("{k}-high"), p, models::pow2(249))])
+            .collect();
+        for (kind, path, delta) in msgs {
             let old = image::felt_of(image::get(&base.image, &image::parse_path(&path)).unwrap()).unwrap();
-            let fault = Fault::Set { path: path.clone(), value: image::felt_hex(&(old + Felt::ONE)) };
+            let fault = Fault::Set { path: path.clone(), value: image::felt_hex(&(old + delta)) };
             let Some(img) = proofrun::apply_faults(&base.image, std::slice::from_ref(&fault)) else { continue };
             let Some((fev, _)) = events_of(&base.layout, &img, base.security) else { continue };
             ctx.stats.evaluations += 1;
